@@ -12,7 +12,8 @@
 namespace {
    enum Kind { KVar, KField, KBitfield, KAlias, KTypedecl, KFundecl, KPrimary, KSecondary };
    // each (name, type) pair is used by one declaration kind (the property's side condition); all eight kinds occur
-   const Kind kind_of[3][3] = { { KVar, KFundecl, KAlias }, { KField, KVar, KPrimary }, { KTypedecl, KBitfield, KSecondary } };
+   // the third name is declared as a primary template with one type and as a secondary template with another (one overload set, two kinds)
+   const Kind kind_of[3][3] = { { KVar, KFundecl, KAlias }, { KField, KTypedecl, KPrimary }, { KPrimary, KBitfield, KSecondary } };
    struct World {
       impl::Lexicon lx;
       impl::Translation_unit unit { lx };
